@@ -331,7 +331,7 @@ def rule_parser_table(chk, rid):
         ok = any(txt == f"{tv} is None" and pol for _, txt, pol, _ in lits)
     chk.ob(rid, f"{CMD}.command_metadata_from_callable", ok, "the default's type is used only when there is no annotation" if ok else
            "the default's type overrides the annotation (e.g. `factor: float = 1` becomes an int parameter)", fb[0] if fb else cm, m, key="annotation-first")
-    an = [n for n, b in find_pattern(cm, "_T = _A.__name__") if fbm and b["_T"] == fbm[0][1]["_T"] and b["_A"].isidentifier()]
+    an = [n for n, b in find_pattern(cm, "_T = _A.__name__") if fbm and b["_T"] == fbm[0][1]["_T"] and (b["_A"].isidentifier() or "annotations[" in b["_A"])]
     chk.ob(rid, f"{CMD}.command_metadata_from_callable", len(an) == 1, "the annotation's type name is the declared type", cm, m, key="annotation")
     t = U(cm)
     chk.ob(rid, f"{CMD}.command_metadata_from_callable", "arg['multiple'] = p.kind is inspect.Parameter.VAR_POSITIONAL" in t.replace('"', "'"), "*args parameters are marked variadic", cm, m, key="var-positional")
